@@ -156,3 +156,6 @@ PROP = dict(
                  "the id generator never issues the single value encrypt(0) (uid_db_roundtrip excludes it)"],
     trusted=["golang.org/x/crypto/xtea and encoding/base64, base32 are modelled arithmetically (tied by the differential run)"],
 )
+
+from ..pin import add_pin
+PROP = add_pin(PROP)
